@@ -12,7 +12,14 @@
                                   [0, count) of its group's current size  (Sched/TurnP.v per-turn specification,
                                   Sched/CycleP.v loop and partition composition, Sched/IdRange.v, Sched/InvAlloc.v
                                   allocation-tree invariant, Sched/InvIdRec.v, Sched/Reach.v);
-      C05_cycle_spec              the same for one cycle from any state satisfying the invariants (Sched/CycleP.v).
+      C05_cycle_spec              the same for one cycle from any state satisfying the invariants (Sched/CycleP.v);
+      C05_loader_restore          Loader.restore_placement for one recorded instance (operation ORestore: Server.restore
+                                  or Server.put, then Application.force_set_identity, a schedule-once instance that
+                                  cannot be put back removed) keeps all of the above, provided the recorded identity
+                                  is one no other instance of the group holds and a group instance ends up with one;
+                                  the operation is part of the alphabet of `reachable`, so C05_end_of_cycle and the
+                                  C03/C07/C08 theorems cover states reached through the loader's restore;
+      C05_forced_duplicate_refuted  the proviso is needed: forcing an identity somebody else holds yields a duplicate.
     The proof attempt of C05_end_of_cycle for instances flagged for renewal is what exposed the defect repaired
     by fix: 7bb39c9 (a renewal whose restore is refused kept the identity of a pending instance); earlier defects of
     the same property: 05b28ff, 892e28c, d5e1071 (known_findings.json). *)
@@ -95,6 +102,32 @@ Example C05_nonvacuous_wf : wf_ops_id (init_cell 3 2000 1) ex_ops.
 Proof. cbn [wf_ops_id ex_ops wf_op_id]. repeat split; try (intros; reflexivity); try discriminate. Qed.
 Example C05_nonvacuous_wf_all : wf_ops_all (init_cell 3 2000 1) ex_ops.
 Proof. apply wf_ops_allb_sound. vm_compute. reflexivity. Qed.
+
+(** Loader.restore_placement (one recorded instance) between cycles *)
+Theorem C05_loader_restore : forall c sn an vb ex ident,
+  Good c -> wf_op_all c (ORestore sn an vb ex ident) -> Good (step c (ORestore sn an vb ex ident)).
+Proof. intros c sn an vb ex ident H W. exact (Good_step c _ W H). Qed.
+Print Assumptions C05_loader_restore.
+
+Definition ex_ops_restore : list op :=
+  [ OAddBucket 2001 3 2000; OAddServer 1000 2001 [100;100;100] 4000 0 0; OConfigGroup 5000 3;
+    OAddApp 4000 [] (ex_a 1 1 [10;10;10]); OAddApp 4000 [] (ex_a 2 2 [10;10;10]);
+    ORestore 1000 1 true 50 (Some 2); ORestore 1000 2 false 0 (Some 0); OSchedule [] ].
+Example C05_loader_restore_nonvacuous :
+  map (fun a => (a_name a, a_server a, a_identity a, a_expiry a)) (c_apps (run (init_cell 3 2000 1) ex_ops_restore))
+  = [(1, Some 1000, Some 2, Some 50); (2, Some 1000, Some 0, Some 0)]
+  /\ wf_ops_allb (init_cell 3 2000 1) ex_ops_restore = true.
+Proof. vm_compute. split; reflexivity. Qed.
+
+Definition ex_ops_forced_dup : list op :=
+  [ OAddBucket 2001 3 2000; OAddServer 1000 2001 [100;100;100] 4000 0 0; OConfigGroup 5000 3;
+    OAddApp 4000 [] (ex_a 1 1 [10;10;10]); OAddApp 4000 [] (ex_a 2 2 [10;10;10]);
+    ORestore 1000 1 true 50 (Some 2); ORestore 1000 2 true 50 (Some 2) ].
+Theorem C05_forced_duplicate_refuted :
+  wf_ops_allb (init_cell 3 2000 1) ex_ops_forced_dup = false /\
+  map (fun a => (a_name a, a_identity a)) (c_apps (run (init_cell 3 2000 1) ex_ops_forced_dup)) = [(1, Some 2); (2, Some 2)].
+Proof. vm_compute. split; reflexivity. Qed.
+Print Assumptions C05_forced_duplicate_refuted.
 
 (** the functions of treadmill/scheduler/__init__.py these theorems were proved about still have the statement
     skeleton the model was written from (re-extracted from the Python AST on every run, harness/tables_shape.py;
